@@ -22,6 +22,7 @@ LN_RING = ("Theorems are about models M1 (AtomicMove) / M2 (FullSyncMove), not a
            "(every hook point, register value and result of every recorded schedule must agree) - as strong as the schedules explored. "
            "Sequential consistency assumed; index-based cancel is excluded from the executions the ring theorems quantify over unless the cancel is exact (see cancel_steals in DESIGN.md).")
 
+MULTI_KINDS = ["arc_atomic", "arc_fullsync", "arc_crossbeam", "ogre_atomic", "ogre_fullsync"]
 UNI_KINDS = ["mfullsync", "matomic", "mcrossbeam", "zatomic", "zfullsync"]
 UNI_RULE = ("real Uni channels (N in {2,4}, MAX_STREAMS in {1,2}, 1..MAX streams created) with 1-3 producers using send / send_with / send_with_async "
             "(suspended for a random number of turns) / reserve+send-reserved and hand-driven stream tasks that park on Pending and are re-polled when their waker "
@@ -43,8 +44,9 @@ PROPS = {
  "C01": dict(
     level_text="Lean 4 proof for every execution (any thread count, schedule, length, buffer size) of the ring models that the Uni channels are built on: delivered sequence numbers are exactly 0..head-1 without repetition, each delivered value is the accepted one, nothing accepted is lost, a rejected send never wrote. Model tied to the code by step-level replay of thousands of scheduled runs; an implementation-side exactly-once oracle produces concrete replays.",
     level_note=LN_RING,
-    lean=["C01"],
-    scenarios=[ring("atomic", "mixed", 1600), ring("fullsync", "mixed", 1600)],
+    lean=["C01", "C01_LockRing"],
+    scenarios=[ring("atomic", "mixed", 1600), ring("fullsync", "mixed", 1600)] +
+              [dict(bin="uni", args=[f"kind={k}", "sub=flow"], runs=300, model_name="M8 Wake", kinds=["invented", "duplicate", "rejected_delivered", "lost", "panic"]) for k in UNI_KINDS],
     rule=RING_RULE,
     trusted_base=TB_COMMON + ["crossbeam-channel (movable crossbeam Uni channel) is trusted to be a linearizable bounded MPMC queue"],
     assumptions=["payloads are distinct integers (the containers are payload-agnostic)"],
@@ -52,8 +54,9 @@ PROPS = {
  "C02": dict(
     level_text="Lean 4 proof of a forward simulation to a bounded FIFO with fixed linearization points (tail CAS = enqueue, head CAS = dequeue), capacity bound, FIFO of the delivery log, and witness instants for every `empty` and `full` answer, for every execution of the ring models; tied to the code by step-level replay; real-time-order oracle (empty-while-pending, full-while-room, FIFO) on the implementation.",
     level_note=LN_RING,
-    lean=["C02"],
-    scenarios=[ring("atomic", "mixed", 1600), ring("fullsync", "mixed", 1600)],
+    lean=["C02", "C02_LockRing"],
+    scenarios=[ring("atomic", "mixed", 1600), ring("fullsync", "mixed", 1600)] +
+              [dict(bin="uni", args=[f"kind={k}", "sub=flow"], runs=300, model_name="M8 Wake", kinds=["order", "invented", "duplicate", "lost", "panic"]) for k in UNI_KINDS],
     rule=RING_RULE,
     trusted_base=TB_COMMON,
     assumptions=["`full` is judged with slots held by sends in progress / reservations counted as taken, as the property states"],
@@ -61,8 +64,9 @@ PROPS = {
  "C16": dict(
     level_text="Lean 4 proof that the reject path of a send writes nothing (frame theorem), that quiescent states have no capacity in flight, that a solo send is rejected within 3 own steps exactly when N are pending and accepted otherwise, and that from every quiescent empty reachable state exactly N sends are accepted - for every reachable state, hence after any number of fill/drain cycles; tied to the code by step-level replay; refill oracle on the implementation.",
     level_note=LN_RING,
-    lean=["C16"],
-    scenarios=[ring("atomic", "mixed", 1600), ring("fullsync", "mixed", 1600)],
+    lean=["C16", "C16_LockRing"],
+    scenarios=[ring("atomic", "mixed", 1600), ring("fullsync", "mixed", 1600)] +
+              [dict(bin="uni", args=[f"kind={k}", "sub=flow"], runs=300, model_name="M8 Wake", kinds=["rejected_delivered", "invented", "duplicate", "lost", "panic"]) for k in UNI_KINDS],
     rule=RING_RULE,
     trusted_base=TB_COMMON,
     assumptions=[],
@@ -164,6 +168,15 @@ PROPS = {
     scenarios=[dict(bin="uni", args=[f"kind={k}", "sub=susp"], runs=100, model=False, model_name="(oracle only)", kinds=["blocked_by_suspended_send", "panic", "invented", "duplicate", "lost"]) for k in UNI_KINDS],
     rule="producer 0 starts send_with_async and stays suspended until every other producer (plain sends) has finished; stream tasks poll meanwhile; every ring / lock / streams-manager hook is a yield point; NON-TRIVIAL if a stream parked and a wake call happened",
     trusted_base=TB_COMMON,
+    assumptions=[],
+ ),
+ "C10": dict(
+    level_text="Lean 4 proof over sequential histories of any length (create / send / receive-some / drop with leftovers / release, any MAX_STREAMS, both fan-out flavours) of the stream-id bookkeeping and fan-out model: vacant and live ids always partition 0..MAX-1, the used list is the sorted live ids followed by sentinels, the running count equals the number of live listeners, create never runs out of ids while fewer than MAX are live, a dropped id becomes vacant again; with the (repaired) drain-on-drop a listener's queue is empty when its id is handed out, and what a listener receives is exactly, in order and without repetition, a prefix of the events sent during its lifetime (all of them once it polled to empty); counterexample theorem for the pinned behaviour (stale events). Tied to the five real queue-per-listener Multi channels by step-level replay of random histories at the granularity of every bookkeeping access.",
+    level_note="Theorem about model M6+M7 in which a per-listener queue operation is one step (rings: C02; crossbeam trusted); histories are sequential (the property's quantifier); concurrent churn is C17. The Uni channels use the same StreamsManagerBase code (bookkeeping part of the theorem applies verbatim).",
+    lean=["C10"],
+    scenarios=[dict(bin="multi", args=[f"kind={k}", "sub=hist", "drains=1"], runs=400, model_name="M6+M7 Multi", kinds=["stale_event", "invented", "duplicate", "order", "missed_event", "panic", "no_progress", "different_allocation"]) for k in MULTI_KINDS],
+    rule="one thread, random history of length 4-22 of create-listener / send / receive 1-8 / drop-listener (with or without unconsumed events), MAX_STREAMS in {1,2,4}; DISTINCT by trace hash; NON-TRIVIAL if a listener was dropped and at least two were created",
+    trusted_base=TB_COMMON + ["crossbeam-channel: linearizable bounded queue"],
     assumptions=[],
  ),
 }
